@@ -1635,6 +1635,12 @@ type ProposalMessage struct {
 
 // ValidateBasic performs basic validation.
 func (m *ProposalMessage) ValidateBasic() error {
+	// A block cannot have more parts than the maximum block size allows; the
+	// part count sizes bit arrays and part sets before any part is verified.
+	if m.Proposal != nil && m.Proposal.BlockID.PartSetHeader.Total > types.MaxBlockPartsCount {
+		return fmt.Errorf("too many block parts: %d, max: %d",
+			m.Proposal.BlockID.PartSetHeader.Total, types.MaxBlockPartsCount)
+	}
 	return m.Proposal.ValidateBasic()
 }
 
